@@ -1,167 +1,329 @@
 (** Correspondence + property checker for C16 (attributes: owner-only writes, faithful lookups
-    and expiry).  A case is a whole history run on the real message handlers / begin-blocker;
-    after every step the harness records: accepted?, every attribute of every account
-    (GetAllAttributesAddr), AccountsByAttribute of every name, the owner of every name.
+    and expiry).  A case is a whole history run on the real message handlers / begin-blocker /
+    keeper; after every step the harness records: accepted?, every attribute of every holder
+    (GetAllAttributesAddr), AccountsByAttribute of every name of the universe, GetRecordByName of
+    every name (stored name, owner, restricted flag), Params.MaxValueLength, and — for one holder
+    and one (arbitrarily spelled) name chosen per step — the gRPC queries Attributes, Attribute,
+    Scan, AttributeAccounts (each followed page by page with a small page limit, by key or by
+    offset, forwards or in reverse) and AccountData.
 
-    corr:*  the model (Attribute/Attribute.v) run on the same operations disagrees with the
-            implementation on one of these observables;
+    corr:*  the model (Attribute/Attribute.v composed with Name/Name.v) run on the same
+            operations disagrees with the implementation on one of these observables;
     prop:*  the property's own checker, evaluated on the implementation's observations only
-            (no model involved), fails. *)
-From Coq Require Import ZArith NArith List String Bool.
+            (no model state involved), fails. *)
+From Coq Require Import ZArith NArith List String Ascii Bool.
+From PV Require Import Name.Name.
 From PV Require Export Attribute.Attribute Corr.CorrBase.
 Import ListNotations.
 Open Scope string_scope.
 Open Scope list_scope.
 Open Scope Z_scope.
 
-(** account, name, value, type, expiration *)
-Definition orec := (Z * Z * Z * Z * option Z)%type.
+(** account, name (as stored), value, type, expiration *)
+Definition orec := (N * string * Z * Z * option Z)%type.
+(** stored name, owner, restricted *)
+Definition nrec := (string * N * bool)%type.
+
+(** the gRPC queries made after a step *)
+Record qobs := QObs {
+  q_acct : N;                       (* holder queried *)
+  q_name : string;                  (* name as sent in Attribute / AttributeAccounts *)
+  q_suffix : string;                (* Scan suffix *)
+  q_limit : Z;                      (* page limit *)
+  q_attrs : list (list orec);       (* Attributes(q_acct), page by page *)
+  q_attr : list (list orec);        (* Attribute(q_acct, q_name) *)
+  q_scanned : list (list orec);     (* Scan(q_acct, q_suffix) *)
+  q_accts : list (list N);          (* AttributeAccounts(q_name) *)
+  q_totals : list Z;                (* pagination.total of the first page of the four, when requested *)
+  q_adata : option Z }.             (* AccountData(q_acct): None = error, Some 0 = "", Some v *)
 
 Record obs := Obs {
   o_ok : bool;                      (* the operation was accepted *)
-  o_recs : list orec;               (* all attributes, sorted by (account, name, value) *)
-  o_accts : list (list Z);          (* per name (in the case's name order): AccountsByAttribute, sorted *)
-  o_owners : list (option Z) }.     (* per name: the address the name record resolves to *)
+  o_recs : list orec;               (* all attributes of all holders (keeper dump) *)
+  o_accts : list (list N);          (* per name of the universe: AccountsByAttribute *)
+  o_owners : list (option nrec);    (* per name of the universe: GetRecordByName *)
+  o_maxlen : Z;                     (* Params.MaxValueLength *)
+  o_q : qobs }.
+
+(** the constant part of a history *)
+Record cfgdata := Cfg {
+  d_pmin : N; d_pmax : N; d_plev : N;
+  d_genesis : list (string * N * bool);
+  d_have : list N;
+  d_kinds : list (N * Z);
+  d_vlens : list (Z * Z);
+  d_aranks : list (N * Z);
+  d_nranks : list (string * Z);
+  d_vranks : list (Z * Z);
+  d_maxlen0 : Z }.
 
 Inductive case :=
-| History (t0 : Z) (have_acct : list Z) (accts names : list Z) (steps : list (op * obs)).
+| History (t0 : Z) (d : cfgdata) (accts : list N) (names : list string) (o0 : obs) (steps : list (op * obs)).
 
-Definition mem (x : Z) (l : list Z) : bool := existsb (Z.eqb x) l.
+Fixpoint lookup {A B} (eqb : A -> A -> bool) (l : list (A * B)) (dflt : B) (x : A) : B :=
+  match l with
+  | [] => dflt
+  | (k, v) :: t => if eqb k x then v else lookup eqb t dflt x
+  end.
+Definition memN (x : N) (l : list N) : bool := existsb (N.eqb x) l.
+
+Definition mk_config (d : cfgdata) : config :=
+  {| c_params := {| p_min_seg := d_pmin d; p_max_seg := d_pmax d; p_max_levels := d_plev d |};
+     c_genesis := d_genesis d;
+     c_has_acct := fun a => memN a (d_have d);
+     c_kind := lookup N.eqb (d_kinds d) 0;
+     c_vlen := lookup Z.eqb (d_vlens d) 0;
+     c_arank := lookup N.eqb (d_aranks d) 0;
+     c_nrank := lookup String.eqb (d_nranks d) 0;
+     c_vrank := lookup Z.eqb (d_vranks d) 0;
+     c_maxlen0 := d_maxlen0 d |}.
 
 (** *** Projection of a model state onto the observables *)
 Definition orec_of (r : attr) : orec := (a_acct r, a_name r, a_val r, a_type r, a_exp r).
-Definition okey (r : orec) : key := let '(a, n, v, _, _) := r in (a, n, v).
+Definition oacct (r : orec) : N := let '(a, _, _, _, _) := r in a.
+Definition oname (r : orec) : string := let '(_, n, _, _, _) := r in n.
+Definition oval (r : orec) : Z := let '(_, _, v, _, _) := r in v.
 Definition oexp (r : orec) : option Z := let '(_, _, _, _, e) := r in e.
-Definition key_ltb (k1 k2 : key) : bool :=
-  let '(a1, n1, v1) := k1 in let '(a2, n2, v2) := k2 in
-  (a1 <? a2) || ((a1 =? a2) && ((n1 <? n2) || ((n1 =? n2) && (v1 <? v2)))).
+Definition okey (r : orec) : key := (oacct r, ank (oname r), oval r).
+
+Definition str_ltb (x y : string) : bool := negb (String.leb y x).
+Definition orec_ltb (x y : orec) : bool :=
+  N.ltb (oacct x) (oacct y) ||
+  (N.eqb (oacct x) (oacct y) &&
+   (str_ltb (oname x) (oname y) || (String.eqb (oname x) (oname y) && (oval x <? oval y)))).
 Fixpoint insert_rec (r : orec) (l : list orec) : list orec :=
   match l with
   | [] => [r]
-  | x :: t => if key_ltb (okey r) (okey x) then r :: l else x :: insert_rec r t
+  | x :: t => if orec_ltb r x then r :: l else x :: insert_rec r t
   end.
 Definition sort_recs (l : list orec) : list orec := fold_right insert_rec [] l.
 
+Fixpoint insertN (x : N) (l : list N) : list N :=
+  match l with
+  | [] => [x]
+  | y :: t => if N.leb x y then x :: l else y :: insertN x t
+  end.
+Definition sortN (l : list N) : list N := fold_right insertN [] l.
+
 Definition orec_eqb (x y : orec) : bool :=
   let '(a1, n1, v1, t1, e1) := x in let '(a2, n2, v2, t2, e2) := y in
-  (a1 =? a2) && (n1 =? n2) && (v1 =? v2) && (t1 =? t2) && oz_eqb e1 e2.
+  N.eqb a1 a2 && String.eqb n1 n2 && (v1 =? v2) && (t1 =? t2) && oz_eqb e1 e2.
+Definition nrec_eqb (x y : nrec) : bool :=
+  let '(n1, a1, r1) := x in let '(n2, a2, r2) := y in
+  String.eqb n1 n2 && N.eqb a1 a2 && Bool.eqb r1 r2.
+Definition recs_same (x y : list orec) : bool := list_eqb orec_eqb (sort_recs x) (sort_recs y).
+Definition accts_same (x y : list N) : bool := list_eqb N.eqb (sortN x) (sortN y).
 
-Definition model_obs (accts names : list Z) (s : state) (ok : bool) : obs :=
-  Obs ok (sort_recs (map orec_of (s_recs s)))
-      (map (fun n => accounts_by_attribute s n accts) names)
-      (map (s_owner s) names).
+Definition to_nrec (r : record) : nrec := (r_name r, r_addr r, r_restricted r).
+
+(** what the model predicts for the queries asked in [q] *)
+Definition model_q (cfg : config) (accts : list N) (s : state) (q : qobs)
+  : list orec * list orec * list orec * list N * option Z :=
+  (map orec_of (q_attributes s (q_acct q)),
+   map orec_of (q_attribute s (q_acct q) (q_name q)),
+   map orec_of (q_scan s (q_acct q) (q_suffix q)),
+   accounts_by_attribute s (q_name q) accts,
+   q_account_data cfg s (q_acct q)).
 
 (** *** The property's checker on two consecutive observations of the implementation *)
-Fixpoint index_of (x : Z) (l : list Z) : nat :=
-  match l with
-  | [] => 0
-  | y :: t => if x =? y then 0%nat else S (index_of x t)
+Fixpoint find_obs {A} (names : list string) (vals : list A) (n : string) : option A :=
+  match names, vals with
+  | m :: names', v :: vals' => if String.eqb m n then Some v else find_obs names' vals' n
+  | _, _ => None
   end.
-Definition owner_in (names : list Z) (o : obs) (n : Z) : option Z :=
-  nth (index_of n names) (o_owners o) None.
-Definition holders_in (names : list Z) (o : obs) (n : Z) : list Z :=
-  nth (index_of n names) (o_accts o) [].
-Definition has_key (o : obs) (k : key) : bool := existsb (fun r => key_eqb (okey r) k) (o_recs o).
-Definition is_owner (names : list Z) (o : obs) (n c : Z) : bool :=
-  oz_eqb (owner_in names o n) (Some c).
 
-(** who writes under which name; names are the canonical (normalised) identities, whatever the
-    spelling used in the request *)
-Definition writer (o : op) : option (Z * Z) :=
-  match o with
-  | OAdd c _ n _ _ _ _ | OUpdate c _ n _ _ _ _ _ | OUpdateExp c _ n _ _ _
-  | ODelete c _ n _ | ODeleteDistinct c _ n _ _ | ODeleteName c n | OPurge c n => Some (c, n)
+(** the owner of name [n] as observed: the record returned for [n] must carry the name [n] *)
+Definition owner_in (names : list string) (o : obs) (n : string) : option N :=
+  match find_obs names (o_owners o) n with
+  | Some (Some (stored, ow, _)) => if String.eqb stored n then Some ow else None
   | _ => None
   end.
+Definition in_universe (names : list string) (n : string) : bool := existsb (String.eqb n) names.
+Definition holders_in (names : list string) (o : obs) (n : string) : list N :=
+  match find_obs names (o_accts o) n with Some l => l | None => [] end.
+Definition has_key (o : obs) (k : key) : bool := existsb (fun r => key_eqb (okey r) k) (o_recs o).
+Definition is_owner (names : list string) (o : obs) (n : string) (c : N) : bool :=
+  match owner_in names o n with Some ow => N.eqb ow c | None => false end.
+Definition unowned (names : list string) (o : obs) (n : string) : bool :=
+  in_universe names n && match find_obs names (o_owners o) n with Some None => true | _ => false end.
 
-(** only the owner's add / update / delete (and name deletion) is accepted *)
-Definition p_only_owner (names : list Z) (prev : obs) (o : op) (cur : obs) : bool :=
+Definition normalised (p : params) (name : string) : bool :=
+  match normalize p name with Some n => String.eqb n name | None => false end.
+
+(** a rejected operation changes nothing (tx rollback) *)
+Definition obs_same (x y : obs) : bool :=
+  recs_same (o_recs x) (o_recs y) &&
+  list_eqb accts_same (o_accts x) (o_accts y) &&
+  list_eqb (opt_eqb nrec_eqb) (o_owners x) (o_owners y) &&
+  (o_maxlen x =? o_maxlen y).
+
+(** only the owner's add / update / delete (and name deletion) is accepted; names are identified
+    by their normal form, whatever the spelling used in the request.  PurgeAttribute as a direct
+    keeper call is judged only when it is given a normalised name, as its only caller
+    (DeleteName) does. *)
+Definition p_only_owner (p : params) (names : list string) (prev : obs) (o : op) (cur : obs) : bool :=
   if o_ok cur then
-    match writer o with
-    | Some (c, n) =>
-        match o with
-        | OPurge _ _ => is_owner names prev n c || oz_eqb (owner_in names prev n) None
-        | _ => is_owner names prev n c
+    match o with
+    | OAdd c _ name _ _ _ | OUpdate c _ name _ _ _ _ | OUpdateExp c _ name _ _
+    | ODelete c _ name | ODeleteDistinct c _ name _ | ODeleteName name c =>
+        match normalize p name with
+        | Some n => is_owner names prev n c
+        | None => false
         end
-    | None => true
+    | OPurge c name =>
+        if normalised p name then is_owner names prev name c || unowned names prev name else true
+    | OSetAccountData _ _ _ => is_owner names prev account_data_name mod_addr || obs_same prev cur
+    | _ => true
     end
   else true.
 
 (** may the attribute [r], present before the step, be absent after it? *)
-Definition justified (names : list Z) (prev : obs) (now : Z) (o : op) (r : orec) : bool :=
+Definition justified (p : params) (names : list string) (prev : obs) (now : Z) (o : op) (r : orec) : bool :=
   let '(a, n, v, _, e) := r in
+  let names_it name := match normalize p name with Some m => String.eqb m n | None => false end in
   match o with
-  | ODelete c a' n' _ => (a =? a') && (n =? n') && is_owner names prev n c
-  | ODeleteDistinct c a' n' v' _ => (a =? a') && (n =? n') && (v =? v') && is_owner names prev n c
-  | OUpdate c a' n' ov _ _ _ _ => (a =? a') && (n =? n') && (v =? ov) && is_owner names prev n c
-  | ODeleteName c n' | OPurge c n' => (n =? n') && is_owner names prev n c
-  | OBlock dt => match e with Some t => t <? now + dt | None => false end
+  | ODelete c a' name => N.eqb a a' && names_it name && is_owner names prev n c
+  | ODeleteDistinct c a' name v' => N.eqb a a' && names_it name && (v =? v') && is_owner names prev n c
+  | OUpdate c a' name ov _ _ _ => N.eqb a a' && names_it name && (v =? ov) && is_owner names prev n c
+  | ODeleteName name c => names_it name && is_owner names prev n c
+  | OPurge c name =>
+      if normalised p name then String.eqb name n && is_owner names prev n c
+      else String.eqb (ank name) (ank n)
+  | OSetAccountData _ a' _ =>
+      N.eqb a a' && String.eqb n account_data_name && is_owner names prev n mod_addr
+  | OBlock dt _ => match e with Some t => t <? now + dt | None => false end
   | _ => false
   end.
 
-Definition p_disappears (names : list Z) (prev : obs) (now : Z) (o : op) (cur : obs) : bool :=
-  forallb (fun r => has_key cur (okey r) || (o_ok cur && justified names prev now o r)) (o_recs prev).
+Definition p_disappears (p : params) (names : list string) (prev : obs) (now : Z) (o : op) (cur : obs) : bool :=
+  forallb (fun r => has_key cur (okey r) || (o_ok cur && justified p names prev now o r)) (o_recs prev).
 
 (** every holder is listed by the accounts-by-name lookup *)
-Definition p_lookup (names : list Z) (cur : obs) : bool :=
-  forallb (fun r => let '(a, n, _, _, _) := r in mem a (holders_in names cur n)) (o_recs cur).
+Definition p_lookup (names : list string) (cur : obs) : bool :=
+  forallb (fun r => memN (oacct r) (holders_in names cur (oname r))) (o_recs cur).
 
-(** after a block begins at time t, nothing whose stored expiration is before t is left *)
+(** after a block begins at time t with sweep limit [limit], nothing whose stored expiration is
+    before t is left — provided no more attributes had expired than the limit allows; otherwise
+    at least [limit] of them are gone *)
+Definition expired_at (t : Z) (r : orec) : bool :=
+  match oexp r with Some e => e <? t | None => false end.
 Definition p_expired_gone (prev : obs) (now : Z) (o : op) (cur : obs) : bool :=
   match o with
-  | OBlock dt =>
+  | OBlock dt limit =>
       if dt <? 0 then true else
-      forallb (fun r => match oexp r with
-                        | Some t => negb (t <? now + dt) || negb (has_key cur (okey r))
-                        | None => true
-                        end) (o_recs prev)
+      let ex := filter (expired_at (now + dt)) (o_recs prev) in
+      let left := filter (fun r => has_key cur (okey r)) ex in
+      if (limit =? 0) || (Z.of_nat (List.length ex) <=? limit)
+      then match left with [] => true | _ => false end
+      else limit <=? Z.of_nat (List.length ex) - Z.of_nat (List.length left)
   | _ => true
   end.
 
-(** a rejected operation changes nothing (tx rollback) *)
-Definition obs_same (x y : obs) : bool :=
-  list_eqb orec_eqb (o_recs x) (o_recs y) &&
-  list_eqb (list_eqb Z.eqb) (o_accts x) (o_accts y) &&
-  list_eqb oz_eqb (o_owners x) (o_owners y).
+(** *** Lookup faithfulness through the public API: the queries against the keeper dump of the
+    same state.  [now] is the block time at which the queries ran. *)
+Definition olive (now : Z) (r : orec) : bool :=
+  match oexp r with Some e => negb (e <? now) | None => true end.
+Definition pages_ok {A} (limit : Z) (pages : list (list A)) : bool :=
+  forallb (fun pg => Z.of_nat (List.length pg) <=? limit) pages &&
+  forallb (fun pg => Z.of_nat (List.length pg) =? limit) (removelast pages).
+Definition total_ok (t : Z) (n : nat) : bool := (t <? 0) || (t =? Z.of_nat n).
 
-Definition prop_step (names : list Z) (prev : obs) (now : Z) (o : op) (cur : obs) : list string :=
-  tag (p_only_owner names prev o cur) "prop:only_owner_writes" ++
-  tag (p_disappears names prev now o cur) "prop:disappears_only_when" ++
+Definition p_queries (names : list string) (now : Z) (cur : obs) : list string :=
+  let q := o_q cur in
+  let mine := filter (fun r => N.eqb (oacct r) (q_acct q) && olive now r) (o_recs cur) in
+  let named := filter (fun r => String.eqb (ank (oname r)) (ank (q_name q))) mine in
+  let scanned := filter (fun r => has_suffix (oname r) (q_suffix q)) mine in
+  let holders := map oacct (filter (fun r => String.eqb (ank (oname r)) (ank (q_name q))) (o_recs cur)) in
+  tag (recs_same (List.concat (q_attrs q)) mine) "prop:query_attributes_is_the_live_keeper_dump" ++
+  tag (recs_same (List.concat (q_attr q)) named) "prop:query_attribute_is_the_live_keeper_dump" ++
+  tag (recs_same (List.concat (q_scanned q)) scanned) "prop:query_scan_is_the_live_keeper_dump" ++
+  tag (forallb (fun a => memN a (List.concat (q_accts q))) holders) "prop:query_attribute_accounts_never_omits" ++
+  tag (forallb (olive now) (List.concat (q_attrs q) ++ List.concat (q_attr q) ++ List.concat (q_scanned q)))
+      "prop:expired_invisible_to_queries" ++
+  tag (pages_ok (q_limit q) (q_attrs q) && pages_ok (q_limit q) (q_attr q) &&
+       pages_ok (q_limit q) (q_scanned q) && pages_ok (q_limit q) (q_accts q)) "prop:query_pages" ++
+  tag (match q_totals q with
+       | [t1; t2; t3; t4] =>
+           total_ok t1 (List.length mine) && total_ok t2 (List.length named) &&
+           total_ok t3 (List.length scanned) && total_ok t4 (List.length (List.concat (q_accts q)))
+       | _ => false
+       end) "prop:query_totals" ++
+  tag (match q_adata q with
+       | Some v =>
+           if v =? 0
+           then negb (existsb (fun r => N.eqb (oacct r) (q_acct q) && String.eqb (oname r) account_data_name) (o_recs cur))
+           else existsb (fun r => N.eqb (oacct r) (q_acct q) && String.eqb (oname r) account_data_name && (oval r =? v)) (o_recs cur)
+       | None => true
+       end) "prop:query_account_data".
+
+Definition prop_core (p : params) (names : list string) (prev : obs) (now : Z) (o : op) (cur : obs) : list string :=
+  tag (p_only_owner p names prev o cur) "prop:only_owner_writes" ++
+  tag (p_disappears p names prev now o cur) "prop:disappears_only_when" ++
   tag (p_lookup names cur) "prop:lookup_never_omits" ++
   tag (p_expired_gone prev now o cur) "prop:expired_gone_after_sweep" ++
   tag (o_ok cur || obs_same prev cur) "prop:rejected_changes_nothing".
 
-Definition corr_step (accts names : list Z) (s' : state) (ok : bool) (cur : obs) : list string :=
-  let m := model_obs accts names s' ok in
-  tag (Bool.eqb (o_ok m) (o_ok cur)) "corr:accept" ++
-  tag (list_eqb orec_eqb (o_recs m) (o_recs cur)) "corr:attributes" ++
-  tag (list_eqb (list_eqb Z.eqb) (o_accts m) (o_accts cur)) "corr:accounts_by_attribute" ++
-  tag (list_eqb oz_eqb (o_owners m) (o_owners cur)) "corr:name_owner".
+Definition next_now (now : Z) (o : op) (ok : bool) : Z :=
+  match o with OBlock dt _ => if ok then now + dt else now | _ => now end.
+
+Definition prop_step (p : params) (names : list string) (prev : obs) (now : Z) (o : op) (cur : obs) : list string :=
+  prop_core p names prev now o cur ++ p_queries names (next_now now o (o_ok cur)) cur.
+
+(** *** model against implementation *)
+Definition model_owners (names : list string) (s : state) : list (option nrec) :=
+  map (fun n => option_map to_nrec (get_record idh (s_names s) n)) names.
+
+Definition corr_step (cfg : config) (accts : list N) (names : list string) (s' : state) (ok : bool) (cur : obs)
+  : list string :=
+  let '(m1, m2, m3, m4, m5) := model_q cfg accts s' (o_q cur) in
+  let q := o_q cur in
+  tag (Bool.eqb ok (o_ok cur)) "corr:accept" ++
+  tag (recs_same (map orec_of (s_recs s')) (o_recs cur)) "corr:attributes" ++
+  tag (list_eqb accts_same (map (fun n => accounts_by_attribute s' n accts) names) (o_accts cur))
+      "corr:accounts_by_attribute" ++
+  tag (list_eqb (opt_eqb nrec_eqb) (model_owners names s') (o_owners cur)) "corr:name_record" ++
+  tag (s_maxlen s' =? o_maxlen cur) "corr:max_value_length" ++
+  tag (recs_same m1 (List.concat (q_attrs q))) "corr:query_attributes" ++
+  tag (recs_same m2 (List.concat (q_attr q))) "corr:query_attribute" ++
+  tag (recs_same m3 (List.concat (q_scanned q))) "corr:query_scan" ++
+  tag (accts_same m4 (List.concat (q_accts q))) "corr:query_attribute_accounts" ++
+  tag (opt_eqb Z.eqb m5 (q_adata q)) "corr:query_account_data".
 
 (** one item per step: everything the per-step checker needs *)
 Record item := { i_prev : obs; i_now : Z; i_op : op; i_cur : obs; i_model : state; i_mok : bool }.
 
-Definition next_now (now : Z) (o : op) : Z :=
-  match o with OBlock dt => if dt <? 0 then now else now + dt | _ => now end.
-
-Fixpoint items (s : state) (prev : obs) (now : Z) (steps : list (op * obs)) : list item :=
+Fixpoint items (cfg : config) (s : state) (prev : obs) (now : Z) (steps : list (op * obs)) : list item :=
   match steps with
   | [] => []
   | (o, cur) :: rest =>
-      let '(s', ok) := step s o in
+      let '(s', ok) := step cfg s o in
       {| i_prev := prev; i_now := now; i_op := o; i_cur := cur; i_model := s'; i_mok := ok |}
-      :: items s' cur (next_now now o) rest
+      :: items cfg s' cur (next_now now o (o_ok cur)) rest
   end.
+
+Definition empty_q : qobs := QObs 0%N "" "" 0 [] [] [] [] [] None.
+
+(** the observation of a model state (the query part [q] is carried along unchanged: the core
+    checker does not look at it) *)
+Definition model_obs (cfg : config) (accts : list N) (names : list string) (s : state) (ok : bool) (q : qobs) : obs :=
+  Obs ok (map orec_of (s_recs s)) (map (fun n => accounts_by_attribute s n accts) names)
+      (model_owners names s) (s_maxlen s) q.
+
+(** the observation of the initial state as the model sees it; the case carries the
+    implementation's ([o0], the first step's [prev]) *)
+Definition model_obs0 (cfg : config) (accts : list N) (names : list string) (s : state) : obs :=
+  model_obs cfg accts names s true empty_q.
 
 Definition check (c : case) : list string :=
   match c with
-  | History t0 have accts names steps =>
-      let s0 := init t0 (fun a => mem a have) in
-      let o0 := model_obs accts names s0 true in
+  | History t0 d accts names o0 steps =>
+      let cfg := mk_config d in
+      let s0 := init cfg t0 in
+      tag (obs_same (model_obs0 cfg accts names s0) o0) "corr:initial_state" ++
       first_failure
-        (fun it => corr_step accts names (i_model it) (i_mok it) (i_cur it) ++
-                   prop_step names (i_prev it) (i_now it) (i_op it) (i_cur it))
-        0%N (items s0 o0 t0 steps)
+        (fun it => corr_step cfg accts names (i_model it) (i_mok it) (i_cur it) ++
+                   prop_step (c_params cfg) names (i_prev it) (i_now it) (i_op it) (i_cur it))
+        0%N (items cfg s0 o0 t0 steps)
   end.
 
 Definition check_all := check_list check.
